@@ -46,11 +46,14 @@ def build(cfg, random_state=None):
 def repro_cases(draw):
     c = sampler_cfg(draw)
     c.update({"rs": draw(st.integers(0, 2**31 - 1)), "rs_other": draw(st.integers(0, 2**31 - 1)), "k_draws": draw(st.integers(0, 50)),
+              "np_seed": draw(st.booleans()),
               "ambient": draw(st.integers(0, 2**31 - 1))})
     return c
 
 
 def run_and_snapshot(cfg, rs):
+    if cfg.get("np_seed"):
+        rs = np.int64(rs)  # a NumPy integer is what rng.integers() / SeedSequence.generate_state() hand to users
     s, t = build(cfg, random_state=rs)
     with quiet():
         lib_call(s.run, n_total=96, progress=False, what="Sampler.run")
